@@ -126,7 +126,8 @@ def from_snapshot(cls, snapshot, registers=None, state=None, config=None, rom_fi
     s_state = {
         'im': snapshot.im,
         'iff': snapshot.iff1,
-        'tstates': snapshot.tstates
+        'tstates': snapshot.tstates,
+        'halted': snapshot.halted
     }
     if state:
         s_state.update(state)
@@ -165,6 +166,8 @@ def get_state(simulator, tstates=True):
     ]
     if tstates:
         state.append(f'tstates={simulator.registers[T]}')
+    if simulator.registers[HALT]:
+        state.append('halted=1')
     if isinstance(simulator.memory, Memory):
         ram = simulator.memory.banks
         state.extend(f'ay[{n}]={v}' for n, v in enumerate(simulator.tracer.ay))
